@@ -590,6 +590,28 @@ pub fn c02(tier: &str, seed: u64) {
         check_not_secret("foreign shares mixed in", &sel, vec![("distinct_of_target", k.to_string())]);
       }
     }
+    // the SAME client randomness under two DIFFERENT thresholds, shared back to back (what a
+    // randomness server that ignores the threshold produces): two unrelated sharings - one report of
+    // each never combines, nor do t2 - 1 of the larger with one of the smaller
+    {
+      let mut rnd = [0u8; 32];
+      rnd.copy_from_slice(&g.bytes(32));
+      let (t1, t2) = (2u32, t.max(3) + 2);
+      let low = make_client(&m, &e, t1, None, Some(rnd));
+      let highs: Vec<Client> = (0..t2 - 1).map(|_| make_client(&m, &e, t2, None, Some(rnd))).collect();
+      let low2 = make_client(&m, &e, t1, None, Some(rnd));
+      for (what, sel) in [
+        ("one report under threshold 2 and one under a larger threshold, same client randomness", vec![low.msg.share.clone(), highs[0].msg.share.clone()]),
+        ("larger first", vec![highs[0].msg.share.clone(), low.msg.share.clone()]),
+        ("t2 - 1 reports under the larger threshold and one under threshold 2", { let mut v: Vec<sta_rs::Share> = highs.iter().map(|c| c.msg.share.clone()).collect(); v.push(low2.msg.share.clone()); v }),
+      ] {
+        let res = std::panic::catch_unwind(std::panic::AssertUnwindSafe(|| share_recover(&sel).map(|c| c.get_message()).map_err(|_| ())));
+        if let Ok(Ok(_)) = res {
+          fail("sub_threshold_recovery_did_not_fail", &d(vec![("what", what.to_string()), ("thresholds", format!("{} and {}", t1, t2)), ("randomness", hex(&rnd))]));
+        }
+      }
+      stat("oracle.C02.same_randomness_two_thresholds");
+    }
     // measurements RELATED to the target by padding (trailing / leading zero bytes, block padding)
     // are other measurements: t-1 reports of the target plus one report of a relative do not
     // combine, whichever comes first
@@ -808,7 +830,27 @@ pub fn c03(tier: &str, seed: u64) {
   for case_i in 0..n {
     let t = g.range(2, 12) as u32;
     let m = { let n = g.range(1, 40) as usize; g.blob(n) };
-    let e = g.blob(2);
+    // epochs of every shape, the empty one included
+    let e = match case_i % 5 { 0 => vec![], 1 => vec![0u8], _ => g.blob(2) };
+    // a single report does not open under a PUBLIC constant key, and two measurements never share
+    // their encryption key
+    {
+      let c1 = make_client(&m, &e, t, Some(g.bytes(9)), None);
+      let m2 = { let mut v = m.clone(); v.push(0x33); v };
+      let w1 = MessageGenerator::new(SingleMeasurement::new(&m), t, &e).share_with_local_randomness().expect("share");
+      let w2 = MessageGenerator::new(SingleMeasurement::new(&m2), t, &e).share_with_local_randomness().expect("share");
+      if w1.key == w2.key || w1.key == [0u8; 16] || w1.key == [0xffu8; 16] {
+        fail("encryption_key_degenerate", &[("measurement_1", hex(&m)), ("measurement_2", hex(&m2)), ("epoch", hex(&e)), ("threshold", t.to_string()), ("key_1", hex(&w1.key)), ("key_2", hex(&w2.key))]);
+      }
+      for k in [[0u8; 16], [0xffu8; 16], { let mut k = [0u8; 16]; k[0] = 1; k }] {
+        let pt = c1.msg.ciphertext.decrypt(&k, "star_encrypt");
+        if pt == payload_of(&m, &c1.aux) {
+          fail("report_decrypts_under_public_constant_key", &[("measurement", hex(&m)), ("epoch", hex(&e)), ("threshold", t.to_string()), ("key", hex(&k)), ("report", hex(&c1.msg.to_bytes()))]);
+        }
+      }
+      case(true);
+      stat("oracle.C03.constant_keys");
+    }
     // sequences of 2..4 clients with differing associated data of equal length
     let alen = *g.pick(&[1usize, 2, 8, 16, 100, 150, 166, 167, 300, 400, 520, 700, 1100, 1400]);
     let cnt = g.range(2, 4) as usize;
